@@ -237,7 +237,7 @@ fn run(ctx: &Ctx) {
         let cuts = cs.into_iter().map(|c| crate::engine::scale(c, len + 1)).collect();
         Case { input: B(input), cfg, cuts, pend, clear }
     });
-    ctx.run_proptest("soup-x-random-schedules", ctx.tier.pick(1_000_000, 8_000_000), strat, check);
+    ctx.run_proptest("soup-x-random-schedules", ctx.tier.pick(2_000_000, 12_000_000), strat, check);
 }
 
 fn replay(_stage: &str, case: &Value) -> Result<Verdict, String> {
